@@ -167,6 +167,17 @@ the bytes stay. -/
 section Bytes
 open IwModel.Binn IwModel.BinnPatch
 
+/-- every well-formed document (object or array, `small`) has bytes — the writer's — over which `jbl_from_buf_keep`
+    builds a holder that `Holds` it: the hypothesis `Holds h v` of the theorems below is met by every such document -/
+theorem bytes_holder (v : JVal) (hw : wf v = true) (hs : small v) (hc : isContainer v = true) :
+    ∃ bs, enc v = some bs ∧ ofBuf bs = some (.cont bs) ∧ Holds (.cont bs) v := by
+  obtain ⟨bs, he⟩ := enc_isSome v hw
+  refine ⟨bs, he, ofBuf_enc v bs hc he (hs bs he), ?_⟩
+  have hv : viewOf v = .cont bs := by
+    cases v <;> first | (simp [isContainer] at hc; done) | simp [viewOf, he]
+  rw [← hv]
+  exact holds_view v hw hs
+
 /-- **(b) a failed call leaves the bytes as they were** — for every holder whatsoever (well-formed or not, decodable
     or not) and every patch document whatsoever: any error of `jbl_patch` / `jbl_patch_from_json` (bad patch, bad
     pointer, failed operation, undecodable holder, result the binary form cannot hold) ⇒ the holder is unchanged. -/
@@ -228,6 +239,11 @@ theorem jbl_bytes_rfc_partial (h : BVal) (v : JVal) (ops : List Rfc.Op) (hh : Ho
     obtain ⟨_, he⟩ := h2 hr hst
     rw [jblPatch_err h v (renderPatch ops) hh.1 he]
     exact ⟨rfl, he⟩
+
+/-- `jbl_patch_from_json` on an RFC 6902 patch document (a JSON array) is `jbl_patch` on it, so
+    `jbl_bytes_rfc_partial` speaks about both entry points -/
+theorem jbl_bytes_from_json (h : BVal) (ops : List Rfc.Op) :
+    jblPatchFromJson h (renderPatch ops) = jblPatch h (renderPatch ops) := rfl
 
 /-- **Iteration over a list of patch documents** applied to the same holder one after the other (a failed call changes
     nothing, the caller goes on): with `SeqOk` (every program satisfies the hypotheses of `jbl_bytes_rfc_partial` and
